@@ -347,7 +347,10 @@ class DimensionGroup:  # numpydoc ignore=PR02
             return False
 
     def __hash__(self) -> int:
-        return hash(self.required._seq)
+        # Must agree with __eq__, which compares all names: groups of
+        # different universe versions can have the same names but different
+        # required subsets.
+        return hash(self.names._seq)
 
     def __le__(self, other: DimensionGroup) -> bool:
         return self.names <= other.names
